@@ -243,6 +243,53 @@ def bad_modules(res, prog):
                 res.sample({'rule': 'C08.6', 'fn': f.qual})
 
 
+def win_prefilter(res, prog):
+    """C08.7: the STACK WIN pre-filter sees records in file order (unsorted).  It may drop a record, or shorten the
+    previous one, only when the two ranges really intersect (range_map::Range::intersects, which is symmetric): a
+    one-sided comparison is only an overlap test on sorted input and would lose records listed out of order"""
+    c = prog.crate('breakpad_symbols')
+    res.rule('C08.7', 0, floor=4, note='STACK WIN pre-filter: a record with a valid range is dropped / the previous one shortened only under Range::intersects(last, new)')
+    fs = [f for f in c.fns if f.qual.endswith('parse_more::insert_win_stack_info')]
+    if len(fs) != 1:
+        res.error('C08.7', 'insert_win_stack_info not found')
+        return
+    f = fs[0]
+    ex = PathExplorer(f, keep=lambda cnd: True)
+    ex.run()
+    pushes = [b for b, t in f.calls() if (f.callee(t) or '').endswith('Vec::push')]
+    rets = [b for b in f.reach if f.blocks[b]['t']['k'] == 'return']
+    if len(pushes) != 1 or not rets:
+        res.error('C08.7', 'expected one push and a return in insert_win_stack_info')
+        return
+    INTER = '(range_map::Range::intersects last_range memory_range)'
+    pstates = [frozenset((show(cc), str(v)) for cc, v in facts) for facts, env in ex.states.get(pushes[0], ())]
+    for rb in rets:
+        for facts, env in ex.states.get(rb, ()):
+            fs_ = dict((show(cc), v) for cc, v in facts)
+            key = frozenset((k, str(v)) for k, v in fs_.items())
+            res.rule('C08.7', 1)
+            pushed = any(ps <= key for ps in pstates)
+            valid = any('StackInfoWin::memory_range info' in k and v == 1 for k, v in fs_.items())
+            if valid and not pushed and fs_.get(INTER) is not True:
+                res.violation('C08.7', 'C08.7|drop', f, f.line, 'a STACK WIN record with a valid range is dropped on a path that did not establish Range::intersects(last_range, memory_range): %s' % sorted((k[:70], str(v)) for k, v in fs_.items() if 'discr' not in k)[:4])
+    for fld in ('size',):
+        for (b, i, place, rv) in part_assigns(f, fld):
+            res.rule('C08.7', 1)
+            for facts, env in ex.states.get(b, ()):
+                fs_ = dict((show(cc), v) for cc, v in facts)
+                if fs_.get(INTER) is not True:
+                    res.violation('C08.7', 'C08.7|shorten', f, f.blocks[b]['s'][i].get('line'), 'the previous STACK WIN record is shortened on a path that did not establish Range::intersects(last_range, memory_range)')
+    # every comparison between the two ranges is the symmetric test or (in)equality
+    for b in sorted(f.reach):
+        t = f.blocks[b]['t']
+        if t['k'] == 'switch' and not is_log_term(t):
+            cnd = show(f.operand_tree(t['x']))
+            if ('last_range' in cnd and 'memory_range' in cnd):
+                res.rule('C08.7', 1)
+                if not (cnd == INTER or 'PartialEq::ne' in cnd or 'PartialEq::eq' in cnd):
+                    res.violation('C08.7', 'C08.7|one-sided|%s' % cnd[:80], f, t.get('line'), 'the pre-filter compares the two ranges with %s: on unsorted input only the symmetric Range::intersects is an overlap test' % cnd[:160])
+
+
 def run(tier, t0):
     res = harness.Result(PID)
     prog = program()
@@ -252,11 +299,12 @@ def run(tier, t0):
     payloads(res, prog)
     unloaded(res, prog)
     bad_modules(res, prog)
+    win_prefilter(res, prog)
     res.assumptions += [
         'range_map::RangeMap::get returns an entry containing the key and try_from_iter fails only on overlapping input (trusted crate)',
         'the builder\'s loop invariant (sorted, non-overlapping output for every input sequence) is argued from its skeleton, not verified inductively',
     ]
-    return harness.finish(res, tier, t0, distinct=6, explanation=(
+    return harness.finish(res, tier, t0, distinct=7, explanation=(
         'Narrow structural claim: range maps are constructed only through the two safe builders; every Range::new sits in a constructor that rejects empty and overflowing ranges; both builders have the same '
         'sort / skip-conflicting / merge-equal / try_from_iter skeleton and no path pushes an entry that overlaps its predecessor; builder payloads are unique indices or records carrying their own range; the unloaded-module '
         'list is sorted and filtered with contains; modules with bad sizes never enter a list. Soundness and completeness of lookups for every arrangement of ranges is a data-structure invariant that is not decided.'))
